@@ -213,7 +213,10 @@ func (w *writer) collect() {
 		if _, done := w.sid[s]; done {
 			continue
 		}
-		if id, ok := std[s]; ok && !(w.opt.CustomStd && w.opt.Pick(3) == 0) {
+		// (with a predefined charset the glyph names implicitly carry their
+		// standard SIDs, so no second SID may be introduced for them)
+		customStd := w.opt.CustomStd && (f.IsCID || w.opt.CharsetFormat < 100)
+		if id, ok := std[s]; ok && !(customStd && w.opt.Pick(3) == 0) {
 			w.sid[s] = id
 			continue
 		}
